@@ -362,3 +362,36 @@ Proof.
     rewrite forallb_forall in Hf. specialize (Hf m Hm). apply Nat.ltb_lt in Hf. exact Hf.
   - rewrite nth_overflow in Hm by exact Hge. destruct Hm.
 Qed.
+
+(* Clause (ii) is false for the code as it is: FindNodeBackwards reports node 1 as a conditional
+   articulation point between node 5 and node 0 although the walk 5,3,2,0 avoids it (the search for
+   the next articulation point only follows detours that leave the shortest path at the current
+   node); node 1's condition is unsatisfiable, the walk 5,3,2,0 carries no condition at all. *)
+Definition refute_ii : graph :=
+  mkGraph [mkNode [] None; mkNode [0] (Some 1); mkNode [0] None; mkNode [1; 2] None; mkNode [1] None;
+           mkNode [3; 4] None]
+          [mkBinding 0 [mkOrigin 0 [[]]]; mkBinding 1 []].
+
+Lemma refute_ii_pass : forall n, n = 5 \/ n = 3 \/ n = 2 ->
+  resolves_at refute_ii n (with_cond refute_ii n [0]) ([], [0]) /\
+  smem n (blocked_of refute_ii [0]) = false.
+Proof.
+  intros n [H|[H|H]]; subst; (split; [exact (R_done refute_ii _ _ _ _) | reflexivity]).
+Qed.
+
+Theorem complete_with_conditions_refuted_lemma :
+  exists g fuel n S, wf_graph g = true /\ acyclic g /\ ExplC g n S /\ solve_fresh fuel g S n = Some false.
+Proof.
+  exists refute_ii, 100, 5, [0]. split; [reflexivity|]. split; [apply topo_ids_acyclic; reflexivity|].
+  split; [|vm_compute; reflexivity].
+  destruct (refute_ii_pass 5 (or_introl eq_refl)) as [A5 B5].
+  destruct (refute_ii_pass 3 (or_intror (or_introl eq_refl))) as [A3 B3].
+  destruct (refute_ii_pass 2 (or_intror (or_intror eq_refl))) as [A2 B2].
+  eapply EC_step; [exact A5 | reflexivity | exact B5 | left; reflexivity |].
+  eapply EC_step; [exact A3 | reflexivity | exact B3 | right; left; reflexivity |].
+  eapply EC_step; [exact A2 | reflexivity | exact B2 | left; reflexivity |].
+  eapply EC_done with (removed := [0]); [|reflexivity].
+  unfold resolves_at. simpl.
+  eapply R_rem with (o := mkOrigin 0 [[]]) (ss := []); [reflexivity | reflexivity | left; reflexivity |].
+  exact (R_done refute_ii _ _ _ _).
+Qed.
